@@ -13,7 +13,7 @@ EXTRACT = ["FDS", "C04R"]
 BINS = ["c04r"]
 NEEDS_CICADA = True
 ALLOWED_AXIOMS = []
-PINNED = ["C04_full", "C04_holds", "C04_sinks", "C04_builtin_sinks", "C04_builtin_probe",  "C04_unopenable", "C04_parse", "C04_parse_from", "C04_parse_from_attached", "C04_shell_unaffected"]
+PINNED = ["C04_full", "C04_holds", "C04_sinks", "C04_builtin_sinks", "C04_builtin_probe",  "C04_unopenable", "C04_herestring_payload", "C04_parse", "C04_parse_from", "C04_parse_from_attached", "C04_shell_unaffected"]
 TRUSTED = R.TRUSTED
 ASSUMES = R.ASSUMES + ["file contents: create/truncate/append are observed on the real binary (L2), the model records the open mode only"]
 WEIGHTS = {"builtin": 0.15, "notfound": 0.03, "here": 0.12, "from": 0.15, "redir": 0.9, "maxredir": 4, "capture": 0.1,
@@ -74,12 +74,49 @@ def builtin_sinks(ctx, res):
                             note="the model of _get_std_fds disagrees with the implementation (which meets the oracle)")
 
 
+def herestring_payload_runs(ctx, res):
+    """`<<< word` delivers word + newline for every word, the EMPTY one included, in the three spellings of an empty word, on a
+    lone command, on the first / a later stage of a pipeline, and on the builtin `read`."""
+    hp = os.path.join(ctx.helpers, "hp")
+    words = [('""', ""), ("''", ""), ("$EMPTY_ZQ", ""), ("a", "a"), ("'a b'", "a b"), ('"x"', "x")]
+    shapes = [("lone", "%s @r A <<< %%s" % hp), ("last", "%s @ X | %s @r A <<< %%s" % (hp, hp)),
+              ("first", "%s @r A <<< %%s | %s @r B" % (hp, hp)), ("middle", "%s @ X | %s @r A <<< %%s | %s @r B" % (hp, hp, hp))]
+    bad = 0
+    for spelled, word in words:
+        exp = "%d:%s" % (len(word) + 1, F.fnv((word + "\n").encode()))
+        for name, tmpl in shapes + [("read", "read zq_var <<< %s")]:
+            work = tempfile.mkdtemp(prefix="c04h_")
+            try:
+                F.setup_work(work, ())
+                line = "%s ; %s @x$? S.0" % (tmpl % spelled, hp)
+                rc, recs = F.run_real(ctx.cicada, line, work)
+            finally:
+                shutil.rmtree(work, ignore_errors=True)
+            res.count("L2_herestring_payload", 1)
+            res.nontrivial("c04h:%s:%s" % (name, spelled))
+            probs = []
+            if name == "read":
+                got = recs.get("S.0", {}).get("argv", [None, None])[1]
+                if got != "@x0":
+                    probs.append("`read` on the here-string ended with status %s (a line, even an empty one, ends in a newline: 0)" % got)
+            else:
+                got = recs.get("A", {}).get("stdin")
+                if got != exp:
+                    probs.append("the command received %s on stdin, the word and a newline are %s" % (got, exp))
+            if probs:
+                bad += 1
+                if bad <= 3:
+                    res.violate(kind="oracle", layer="L2", input=(tmpl % spelled).replace(hp, "hp"), word=word, observed=probs,
+                                failing_input=True, note="`<<<` does not supply the word followed by a newline")
+
+
 def run(ctx, res):
     res.rule = ("L1: redirection parser on every word <= 4/5 chars over {a 1 2 3 > & U+0661} and random token lists; every "
                 "spelling of the property through the real tokenizer; L2: random commands with <= 4 redirections, all positions, "
                 "targets absent/present/unopenable, sentinel afterwards; builtin text placement; L3 strace")
     c04r_l1.run_l1(ctx, res)
     builtin_sinks(ctx, res)
+    herestring_payload_runs(ctx, res)
     replays = [[R.PRELUDE()] + R.REPLAYS[c]() for c in ("capture-with-redirect", "captured-builtin-last-stage")] + [[R.PRELUDE(), R.S([R.E(0), R.E(1, True, frm="h")])]]
     R.run_sequences(ctx, res, "C04", replays, "replay")
     R.run_sequences(ctx, res, "C04", R.captured_builtin_seqs(ctx), "builtin")
